@@ -102,6 +102,7 @@ func (x *Exec) fileModels(fn *ssa.Function, name string) modelFn {
 	case "(*os.File).ReadAt":
 		return func(st *State, fr *Frame, fn *ssa.Function, args []*Val, pos token.Pos, cont retFn) {
 			x.checkNonNil(st, args[0], pos)
+			x.ghostCall(st, "file.ReadAt", []*Val{args[0], args[1], args[2]})
 			cont(st, x.fileReadAt(st, args[0], args[1], args[2].T, fn.Signature.Results(), pos))
 		}
 	case "(*os.File).WriteAt":
